@@ -41,6 +41,12 @@ def scenarios(rng, n):
             for o in t1:
                 if o["op"] == "reload":
                     o["how"] = "modify_add"
+        elif rng.random() < 0.4:
+            # the replacement goes through Handle::modify and yields to the scheduler while the write lock is held: an emitter
+            # scheduled there really blocks on the handle's lock (or, if the code does not wait, is judged while the value is in flux)
+            for o in t1:
+                if o["op"] == "reload":
+                    o["how"] = "modify_set"
         if kind in ("env", "envmod"):   # emissions inside a span `w` that a span-scoped directive of the new value may enable
             for th in threads:
                 for o in th:
